@@ -3,6 +3,7 @@ package main
 import (
 	"errors"
 	"net"
+	"os"
 	"time"
 
 	"github.com/insomniacslk/dhcp/verifshim/vs"
@@ -26,22 +27,26 @@ type Write struct {
 
 var errClosedConn = errors.New("use of closed network connection")
 var errInjectedWrite = errors.New("network is down (injected)")
+
+// what a real UDP socket returns from WriteTo after an expired write deadline: a timeout-typed error
+var errInjectedWriteTimeout error = &net.OpError{Op: "write", Net: "udp", Err: os.ErrDeadlineExceeded}
 var errInjectedClose = errors.New("input/output error on close (injected)")
 
 // Conn is a scripted net.PacketConn built on shim primitives: ReadFrom blocks on a
 // scheduler-owned queue, every WriteTo is a scheduling point and is logged.
 type Conn struct {
-	q         *vs.Chan[Datagram]
-	closedCh  *vs.Chan[struct{}]
-	closed    bool
-	h         *History
-	WriteErr  error
-	FailWrite map[int]bool // indices (0-based, in call order) of WriteTo calls that fail
-	nWrites   int
-	OnWrite   func(w Write)
-	OnReadErr func() // called when a scripted read error is handed to the code under test
-	CloseErr  error  // returned by Close (the socket is closed all the same, as an OS does when close(2) reports EIO)
-	local     net.Addr
+	q            *vs.Chan[Datagram]
+	closedCh     *vs.Chan[struct{}]
+	closed       bool
+	h            *History
+	WriteErr     error
+	FailWrite    map[int]bool // indices (0-based, in call order) of WriteTo calls that fail
+	FailWriteErr error        // the error those calls return (nil: errInjectedWrite)
+	nWrites      int
+	OnWrite      func(w Write)
+	OnReadErr    func() // called when a scripted read error is handed to the code under test
+	CloseErr     error  // returned by Close (the socket is closed all the same, as an OS does when close(2) reports EIO)
+	local        net.Addr
 }
 
 func NewConn(h *History) *Conn {
@@ -103,6 +108,9 @@ func (c *Conn) WriteTo(b []byte, addr net.Addr) (int, error) {
 	c.nWrites++
 	if c.FailWrite[k] {
 		c.h.add(Event{Kind: EvNote, Note: "write-fault"})
+		if c.FailWriteErr != nil {
+			return 0, c.FailWriteErr
+		}
 		return 0, errInjectedWrite
 	}
 	w := Write{T: vs.NowTicks(), Dest: addr.String(), Data: append([]byte(nil), b...)}
